@@ -1,137 +1,15 @@
 ------------------------------- MODULE MC_C01 -------------------------------
 (***************************************************************************)
 (* C01: every program of the control-flow grammar, up to a phrase budget,  *)
-(* is generated token by token (ghost stack of open constructs), compiled   *)
-(* and run by the implementation-shaped design (Xeh.tla) and evaluated by   *)
-(* the structural reference (Src.tla).  TLC checks that the two agree on    *)
-(* the design and prints one REPLAY line per program carrying the           *)
-(* reference's prediction; the harness replays every line on the real crate.*)
+(* is generated token by token (ProgGen), compiled and run by the           *)
+(* implementation-shaped design (Xeh.tla) and evaluated by the structural   *)
+(* reference (Src.tla).  TLC checks that the two agree on the design and    *)
+(* prints one REPLAY line per program carrying the reference's prediction;  *)
+(* the harness replays every line on the real crate.                        *)
 (***************************************************************************)
-EXTENDS Values, TLC, Json
+EXTENDS ProgGen
 
-CONSTANTS Frag,        \* which phrase alphabet
-          Budget,      \* number of phrases
-          Legacy
-
-X == INSTANCE Xeh
-S == INSTANCE Src
-
-L(n)  == X!TLit(IntV(n), 0)
-Wd(s) == X!TWord(s, 0)
-
-\* a phrase: tokens + the grammar rule that says where it may appear
-Ph(rule, toks) == [rule |-> rule, toks |-> toks]
-Plain(toks) == Ph("plain", toks)
-
-Alphabet ==
-  CASE Frag = "cond" ->
-        << Plain(<<L(1)>>), Plain(<<L(2)>>), Plain(<<Wd("true")>>), Plain(<<Wd("false")>>), Plain(<<Wd("nil")>>),
-           Plain(<<Wd("dup")>>), Plain(<<Wd("drop")>>), Plain(<<Wd("+")>>), Plain(<<Wd("==")>>), Plain(<<Wd("print")>>),
-           Ph("if", <<Wd("if")>>), Ph("else", <<Wd("else")>>), Ph("then", <<Wd("then")>>),
-           Ph("if", <<Wd("true"), Wd("if")>>), Ph("if", <<Wd("false"), Wd("if")>>) >>
-    [] Frag = "begin" ->
-        << Plain(<<L(0)>>), Plain(<<L(1)>>), Plain(<<Wd("true")>>), Plain(<<Wd("false")>>),
-           Plain(<<Wd("dup")>>), Plain(<<Wd("drop")>>), Plain(<<L(1), Wd("+")>>), Plain(<<Wd("dup"), L(2), Wd("<")>>),
-           Plain(<<Wd("dup"), L(2), Wd(">=")>>),
-           Ph("beginU", <<Wd("begin")>>), Ph("beginR", <<Wd("begin")>>), Ph("beginW", <<Wd("begin")>>),
-           Ph("until", <<Wd("until")>>), Ph("while", <<Wd("while")>>), Ph("repeat", <<Wd("repeat")>>),
-           Ph("if", <<Wd("if")>>), Ph("then", <<Wd("then")>>), Ph("break", <<Wd("break")>>) >>
-    [] Frag = "do" ->
-        << Plain(<<L(1)>>), Plain(<<Wd("I")>>), Plain(<<Wd("J")>>), Plain(<<Wd("K")>>), Plain(<<Wd("drop")>>), Plain(<<Wd("+")>>),
-           Plain(<<Wd("print")>>), Plain(<<Wd("I"), L(1), Wd("==")>>),
-           Ph("do", <<L(2), L(0), Wd("do")>>), Ph("do", <<L(3), L(1), Wd("do")>>), Ph("do", <<L(0), L(0), Wd("do")>>),
-           Ph("do", <<Wd("do")>>), Ph("loop", <<Wd("loop")>>),
-           Ph("if", <<Wd("if")>>), Ph("else", <<Wd("else")>>), Ph("then", <<Wd("then")>>), Ph("break", <<Wd("break")>>) >>
-    [] Frag = "def" ->
-        << Plain(<<L(1)>>), Plain(<<L(2)>>), Plain(<<Wd("+")>>), Plain(<<Wd("drop")>>), Plain(<<Wd("dup")>>),
-           Ph("def", <<Wd(":"), Wd("f")>>), Ph("def", <<Wd(":"), Wd("g")>>), Ph("enddef", <<Wd(";")>>),
-           Ph("call", <<Wd("f")>>), Ph("call", <<Wd("g")>>),
-           Ph("local", <<Wd("local"), Wd("x")>>), Ph("local", <<Wd("local"), Wd("y")>>),
-           Ph("lref", <<Wd("x")>>), Ph("lref", <<Wd("y")>>),
-           Ph("if", <<Wd("dup"), L(2), Wd("<"), Wd("if")>>), Ph("then", <<Wd("then")>>),
-           Ph("do", <<L(2), L(0), Wd("do")>>), Ph("loop", <<Wd("loop")>>), Plain(<<Wd("I")>>) >>
-    [] Frag = "case" ->
-        << Plain(<<L(1)>>), Plain(<<L(2)>>), Plain(<<Wd("nil")>>), Plain(<<Wd("drop")>>), Plain(<<Wd("dup")>>), Plain(<<Wd("print")>>),
-           Ph("case", <<Wd("case")>>), Ph("of", <<L(1), Wd("of")>>), Ph("of", <<L(2), Wd("of")>>), Ph("of", <<Wd("of")>>),
-           Ph("endof", <<Wd("endof")>>), Ph("endcase", <<Wd("endcase")>>),
-           Ph("var", <<Wd("var"), Wd("v")>>), Ph("var", <<Wd("var"), Wd("u")>>),
-           Ph("setvar", <<Wd("!"), Wd("v")>>), Ph("setvar", <<Wd("!"), Wd("u")>>),
-           Ph("vref", <<Wd("v")>>), Ph("vref", <<Wd("u")>>),
-           Ph("beginR", <<Wd("begin")>>), Ph("repeat", <<Wd("repeat")>>), Ph("break", <<Wd("break")>>) >>
-    [] Frag = "mix" ->
-        << Plain(<<L(1)>>), Plain(<<L(0)>>), Plain(<<Wd("dup")>>), Plain(<<Wd("+")>>), Plain(<<Wd("I")>>), Plain(<<Wd("print")>>),
-           Ph("vec", <<Wd("[")>>), Ph("endvec", <<Wd("]")>>), Plain(<<Wd("depth")>>), Plain(<<Wd("length")>>),
-           Ph("if", <<Wd("if")>>), Ph("else", <<Wd("else")>>), Ph("then", <<Wd("then")>>),
-           Ph("beginR", <<Wd("begin")>>), Ph("beginW", <<Wd("begin")>>), Ph("while", <<Wd("dup"), L(2), Wd("<"), Wd("while")>>),
-           Ph("repeat", <<Wd("repeat")>>), Ph("break", <<Wd("break")>>),
-           Ph("do", <<L(2), L(0), Wd("do")>>), Ph("loop", <<Wd("loop")>>),
-           Ph("def", <<Wd(":"), Wd("f")>>), Ph("enddef", <<Wd(";")>>), Ph("call", <<Wd("f")>>),
-           Ph("case", <<Wd("case")>>), Ph("of", <<L(1), Wd("of")>>), Ph("endof", <<Wd("endof")>>), Ph("endcase", <<Wd("endcase")>>) >>
-
-VARIABLES toks,     \* the program so far
-          open,     \* ghost stack of open constructs
-          n,        \* phrases used
-          done
-vars == <<toks, open, n, done>>
-
-Top == open[Len(open)]
-Has(k) == \E i \in 1..Len(open) : open[i] = k
-Names(kw) == {toks[i + 1].s : i \in {j \in 1..(Len(toks) - 1) : toks[j].t = "w" /\ toks[j].s = kw}}
-
-\* may `break` appear here?  innermost loop reachable through if/else/case/of only
-RECURSIVE BreakOk(_)
-BreakOk(i) == IF i < 1 THEN FALSE
-              ELSE IF open[i] \in {"do", "while", "beginR"} THEN TRUE
-              ELSE IF open[i] \in {"if", "else", "case", "of"} THEN BreakOk(i - 1) ELSE FALSE
-
-Allowed(ph) ==
-  CASE ph.rule = "plain"   -> ~(open # <<>> /\ Top = "case")           \* code directly between `case` and `of` is the default branch: allowed only via "of"-less tail, kept simple
-    [] ph.rule = "if"      -> TRUE
-    [] ph.rule = "else"    -> open # <<>> /\ Top = "if"
-    [] ph.rule = "then"    -> open # <<>> /\ Top \in {"if", "else"}
-    [] ph.rule = "case"    -> TRUE
-    [] ph.rule = "of"      -> open # <<>> /\ Top = "case"
-    [] ph.rule = "endof"   -> open # <<>> /\ Top = "of"
-    [] ph.rule = "endcase" -> open # <<>> /\ Top = "case"
-    [] ph.rule \in {"beginU", "beginR", "beginW"} -> TRUE
-    [] ph.rule = "until"   -> open # <<>> /\ Top = "beginU"
-    [] ph.rule = "while"   -> open # <<>> /\ Top = "beginW"
-    [] ph.rule = "repeat"  -> open # <<>> /\ Top \in {"beginR", "while"}
-    [] ph.rule = "break"   -> BreakOk(Len(open))
-    [] ph.rule = "do"      -> TRUE
-    [] ph.rule = "loop"    -> open # <<>> /\ Top = "do"
-    [] ph.rule = "def"     -> TRUE
-    [] ph.rule = "vec"     -> TRUE
-    [] ph.rule = "endvec"  -> open # <<>> /\ Top = "vec"
-    [] ph.rule = "enddef"  -> open # <<>> /\ Top = "def"
-    [] ph.rule = "call"    -> ph.toks[1].s \in Names(":")
-    [] ph.rule = "local"   -> Has("def")
-    [] ph.rule = "lref"    -> Has("def") /\ ph.toks[1].s \in Names("local")
-    [] ph.rule = "var"     -> open = <<>>
-    [] ph.rule = "setvar"  -> ph.toks[2].s \in Names("var")
-    [] ph.rule = "vref"    -> ph.toks[1].s \in Names("var")
-
-Effect(ph) ==
-  CASE ph.rule \in {"if", "case", "beginU", "beginR", "beginW", "do", "def", "vec"} -> Append(open, ph.rule)
-    [] ph.rule = "of"    -> Append(open, "of")
-    [] ph.rule = "else"  -> [open EXCEPT ![Len(open)] = "else"]
-    [] ph.rule = "while" -> [open EXCEPT ![Len(open)] = "while"]
-    [] ph.rule \in {"then", "endof", "endcase", "until", "repeat", "loop", "enddef", "endvec"} -> Front(open)
-    [] OTHER -> open
-
-Init == toks = <<>> /\ open = <<>> /\ n = 0 /\ done = FALSE
-
-Gen == /\ ~done /\ n < Budget
-       /\ \E i \in 1..Len(Alphabet) :
-            /\ Allowed(Alphabet[i])
-            /\ Len(open) + (IF Alphabet[i].rule \in {"if", "case", "beginU", "beginR", "beginW", "do", "def", "of", "vec"} THEN 1 ELSE 0) <= Budget - n
-            /\ toks' = toks \o Alphabet[i].toks
-            /\ open' = Effect(Alphabet[i])
-       /\ n' = n + 1 /\ done' = FALSE
-
-Finish == ~done /\ open = <<>> /\ toks # <<>> /\ done' = TRUE /\ UNCHANGED <<toks, open, n>>
-
-Next == Gen \/ Finish
+Next == GenNext
 Spec == Init /\ [][Next]_vars
 
 \* ------------------------------------------------------------------ the two evaluations
@@ -144,7 +22,6 @@ VmBig == X!Submit([X!Boot EXCEPT !.ilim = InsnBig], X!Label(toks, 1), "eval")
 VmSmall == X!Submit([X!Boot EXCEPT !.ilim = InsnSmall], X!Label(toks, 1), "eval")
 
 Below(ds, a) == IF Len(ds) >= a THEN SubSeq(ds, 1, Len(ds) - a) ELSE <<>>
-TokText(t) == IF t.t = "w" THEN t.s ELSE IF t.v.ty = "int" THEN ToString(t.v.i) ELSE "?"
 VarSeq(r) == LET names == S!VarNames(toks) IN [nm \in names |-> S!VarValue(toks, r, nm)]
 
 Kind(r) == IF r.skip THEN "skip" ELSE IF r.err = "none" THEN "done" ELSE IF r.err = "timeout" THEN "timeout" ELSE "fail"
@@ -166,7 +43,7 @@ Agree ==
 
 Replay ==
   LET r == Ref
-      base == [src |-> [i \in 1..Len(toks) |-> TokText(toks[i])], kind |-> Kind(r), agree |-> Agree] IN
+      base == [src |-> SrcText, kind |-> Kind(r), agree |-> Agree] IN
   CASE Kind(r) = "skip"    -> base
     [] Kind(r) = "done"    -> base @@ [ds |-> r.ds, out |-> r.out, vars |-> VarSeq(r), limit |-> 200000]
     [] Kind(r) = "fail"    -> base @@ [cls |-> r.err, below |-> Below(r.ds, r.arity), slack |-> Len(r.ds) - Len(Below(r.ds, r.arity)),
